@@ -40,7 +40,9 @@ def _shape(b, o, key, name, maker):
     if mode == "some":
         return maker()
     if mode == "any":
-        return None if b.choose(2, name + " is None?") == 0 else maker()
+        if o.get("_kind_" + key) == "script":
+            return b.lazy(name, [lambda: None, maker])
+        return b.optobj(name, maker())
     return mode   # explicit value
 
 
@@ -55,8 +57,8 @@ def mk_state(b, minimal=False, **o):
     if minimal:
         return b.new("ExcludeRegionState", **fields)
     fields.update(
-        enteringExcludedRegionGcode=_shape(b, o, "enter", "enteringExcludedRegionGcode", lambda: b.script("enterScript")),
-        exitingExcludedRegionGcode=_shape(b, o, "exit", "exitingExcludedRegionGcode", lambda: b.script("exitScript")),
+        enteringExcludedRegionGcode=_shape(b, dict(o, _kind_enter="script"), "enter", "enteringExcludedRegionGcode", lambda: b.script("enterScript")),
+        exitingExcludedRegionGcode=_shape(b, dict(o, _kind_exit="script"), "exit", "exitingExcludedRegionGcode", lambda: b.script("exitScript")),
         extendedExcludeGcodes=_shape(b, o, "extended", "extendedExcludeGcodes", lambda: None),
         atCommandActions=_shape(b, o, "atcommands", "atCommandActions", lambda: None),
         gcodeParser=_shape(b, o, "parser", "gcodeParser", lambda: None),
